@@ -95,6 +95,18 @@ func newHostileServer() http.Handler {
 		hit()
 		return &common.CreatedEntity[int64]{Id: 7}, nil
 	})
+	restli.RegisterBatchDelete(s, segs, func(ctx *restli.RequestContext, rp *rpT, keys []int64, qp bqp) (*common.BatchResponse[int64, *common.BatchEntityUpdateResponse], error) {
+		hit()
+		return &common.BatchResponse[int64, *common.BatchEntityUpdateResponse]{}, nil
+	})
+	restli.RegisterBatchPartialUpdate(s, segs, nil, func(ctx *restli.RequestContext, rp *rpT, vs map[int64]*entT, qp bqp) (*common.BatchResponse[int64, *common.BatchEntityUpdateResponse], error) {
+		hit()
+		return &common.BatchResponse[int64, *common.BatchEntityUpdateResponse]{}, nil
+	})
+	restli.RegisterBatchCreate(s, segs, nil, func(ctx *restli.RequestContext, rp *rpT, vs []*entT, qp *qpT) ([]*common.CreatedEntity[int64], error) {
+		hit()
+		return []*common.CreatedEntity[int64]{{Id: 7}}, nil
+	})
 	restli.RegisterFinder(s, segs, "f", func(ctx *restli.RequestContext, rp *rpT, qp *qpT) (*common.Elements[*entT], error) {
 		hit()
 		return &common.Elements[*entT]{}, nil
@@ -185,6 +197,9 @@ func serverProbe(h http.Handler, position, verb, target string, hdr map[string]s
 	case position == "body" && !json.Valid(body) && (ran || rec.Code < 400):
 		// an independent strict parser (encoding/json) says the body is not one JSON document: a malformed request
 		violation("C04/http/server/body/malformed-body-accepted", fmt.Sprintf("%s %s with a body that is not a JSON document was answered %d (resource invoked: %v): %s", verb, target, rec.Code, ran, clipS(string(body))), cs)
+	case position == "path-shape" && (ran || rec.Code < 400):
+		// the path shape contradicts the method the request names (or that the protocol infers): a malformed request
+		violation("C04/http/server/path-shape/malformed-request-accepted", fmt.Sprintf("%s %s (%v) was answered %d (resource invoked: %v)", verb, target, hdr["X-RestLi-Method"], rec.Code, ran), cs)
 	case ran && (rec.Code < 200 || rec.Code > 299):
 		violation("C04/http/server/"+position+"/resource-invoked-for-rejected-request", fmt.Sprintf("resource code ran although the answer is %d", rec.Code), cs)
 	default:
@@ -289,6 +304,41 @@ func runHTTP(get func(string) *counters, segLen, bodyLen int) {
 		serverProbe(h, "query", "GET", "/r1?q=f&"+s+"="+s, ver, nil, c)
 		serverProbe(h, "tunnelled-query", "POST", "/r1/1", with(map[string]string{"X-HTTP-Method-Override": "GET", "Content-Type": "application/x-www-form-urlencoded"}), []byte("p="+s), c)
 	})
+	// the shape of the path against the method: whole-collection methods with an entity segment, entity methods without one
+	// (named by the header, and as the protocol infers them from verb and query)
+	js0 := map[string]string{"Content-Type": "application/json"}
+	for _, ent := range []string{"1", "(a:(b:1)", "%28"} {
+		for _, p := range []struct{ verb, query, method, body string }{
+			{"GET", "?ids=List(1,2)", "batch_get", ""}, // (a header-less GET with an entity key is a get, whatever the query)
+			{"DELETE", "?ids=List(2,3)", "batch_delete", ""}, {"DELETE", "?ids=List(2,3)", "", ""},
+			{"PUT", "?ids=List(1)", "batch_update", `{"entities":{"1":{"x":1}}}`}, {"PUT", "?ids=List(1)", "", `{"entities":{"1":{"x":1}}}`},
+			{"POST", "?ids=List(1)", "batch_partial_update", `{"entities":{"1":{"patch":{}}}}`},
+			{"POST", "", "create", `{"x":1}`}, {"POST", "", "batch_create", `{"elements":[{"x":1}]}`},
+			{"GET", "?q=f", "finder", ""}, {"GET", "", "get_all", ""},
+		} {
+			hd := with(nil)
+			if p.method != "" {
+				hd["X-RestLi-Method"] = p.method
+			}
+			var body []byte
+			if p.body != "" {
+				body = []byte(p.body)
+				for k, v := range js0 {
+					hd[k] = v
+				}
+			}
+			serverProbe(h, "path-shape", p.verb, "/r1/"+ent+p.query, hd, body, c)
+		}
+	}
+	for _, p := range []struct{ verb, method, body string }{{"GET", "get", ""}, {"PUT", "update", `{"x":1}`}, {"DELETE", "delete", ""}, {"POST", "partial_update", `{"patch":{}}`}} {
+		hd := with(map[string]string{"X-RestLi-Method": p.method})
+		var body []byte
+		if p.body != "" {
+			body = []byte(p.body)
+			hd["Content-Type"] = "application/json"
+		}
+		serverProbe(h, "path-shape", p.verb, "/r1", hd, body, c)
+	}
 	// bodies over the JSON alphabet
 	enumerate([]string{"{", "}", "[", "]", "\"", ":", ",", "x", "1", "null", "\\", "-"}, bodyLen, func(s string) {
 		js := map[string]string{"Content-Type": "application/json"}
@@ -364,4 +414,13 @@ func runHTTP(get func(string) *counters, segLen, bodyLen int) {
 			}
 		}
 	}
+	// batch responses whose KEYS are hostile: every string of <= 3 tokens over the ROR2 alphabet as a key of results,
+	// statuses and errors
+	okHdr := http.Header{"X-Restli-Protocol-Version": {"2.0.0"}}
+	enumerate([]string{"(", ")", ",", ":", "'", "a", "1", "List(", "%", "$params"}, 3, func(k string) {
+		kb, _ := json.Marshal(k)
+		clientProbe(200, okHdr, `{"results":{`+string(kb)+`:{"x":1}}}`, cc)
+		clientProbe(200, okHdr, `{"statuses":{`+string(kb)+`:200},"results":{}}`, cc)
+		clientProbe(200, okHdr, `{"results":{"1":{"x":1}},"errors":{`+string(kb)+`:{"status":404}}}`, cc)
+	})
 }
